@@ -116,6 +116,25 @@ func VerifC19MonotoneV4() {
 	}
 }
 
+// A4, inductive step: the network one bit shorter than an intersecting network
+// (its parent in the CIDR tree) intersects.  Every network containing n1 is
+// reached from n1 by finitely many such steps, so the step implies A4 for all
+// supernets (the induction over the prefix length is on paper).
+func VerifC19MonotoneStepV4() {
+	n1 := c19Net4()
+	o1, _ := n1.Mask.Size()
+	if o1 < 1 {
+		return
+	}
+	m2 := net.CIDRMask(o1-1, 32)
+	n2 := net.IPNet{IP: n1.IP.Mask(m2), Mask: m2}
+	if IntersectsIANAReserved(n1) {
+		zz.Cover("parent of intersecting")
+		zz.Assert(n2.Contains(n1.IP), "the parent network contains the network")
+		zz.Assert(IntersectsIANAReserved(n2), "the network one bit shorter than an intersecting network also intersects")
+	}
+}
+
 // A5: for a single-address network the answer equals the address test.
 func VerifC19HostNet() {
 	ip := c19IP4()
